@@ -627,6 +627,21 @@ func sortArray(v any) (any, error) {
 
 	r := slices.Clone(a)
 
+	if len(a) == 1 {
+		// the comparison functions below, which validate the element types,
+		// are never called for a single element
+		if _, ok := a[0].(string); !ok {
+			if _, ok := toDecimal(a[0]); !ok {
+				return nil, &InvalidTypeError{
+					got:  reflect.TypeOf(a[0]),
+					want: "number",
+				}
+			}
+		}
+
+		return r, nil
+	}
+
 	if _, ok := a[0].(string); ok {
 		valid := true
 		var invalidType reflect.Type
